@@ -14,6 +14,14 @@ def entryOf (x : Cell × Row) : Option Entry :=
 /-- **abstraction**: owned cells, in location order, each with the row found at its location -/
 def abs (c : Cache) : Spec := (c.cells.zip c.rows).filterMap entryOf
 
+theorem filterMap_congr' {α β} {f g : α → Option β} {l : List α} (h : ∀ x ∈ l, f x = g x) :
+    l.filterMap f = l.filterMap g := by
+  induction l with
+  | nil => rfl
+  | cons a as ih =>
+    simp only [List.filterMap_cons, h a (by simp)]
+    rw [ih (fun x hx => h x (by simp [hx]))]
+
 /-! ### CopyPrefix -/
 
 theorem entryOf_cpCell (src dst : Nat) (len : Int) (x : Cell × Row) :
@@ -156,8 +164,8 @@ theorem Range.add_min_le (r : Range) (i : Nat) : (r.add i).min ≤ r.min ∧ (r.
 theorem Range.add_max_ge (r : Range) (i : Nat) : r.max ≤ (r.add i).max ∧ i ≤ (r.add i).max := by
   unfold Range.add; simp only; split <;> omega
 
-theorem Range.add_max_le (r : Range) (i : Nat) : (r.add i).max ≤ Nat.max r.max i := by
-  unfold Range.add; simp only; split <;> simp [Nat.max_def] <;> omega
+theorem Range.add_max_le (r : Range) (i : Nat) : (r.add i).max = r.max ∨ (r.add i).max = i := by
+  unfold Range.add; simp only; split <;> simp
 
 theorem rangeFrom_mono (p : Nat → Cell → Bool) (cells : List Cell) (i : Nat) (r : Range) :
     (rangeFrom p i cells r).min ≤ r.min ∧ r.max ≤ (rangeFrom p i cells r).max := by
@@ -208,8 +216,7 @@ theorem rangeFrom_max_lt (p : Nat → Cell → Bool) (cells : List Cell) (i : Na
     apply ih (i + 1) _ (by omega)
     split
     · have := Range.add_max_le r i
-      simp only [Nat.max_def] at this
-      split at this <;> omega
+      omega
     · exact hr
 
 theorem rangeOf_covers (p : Nat → Cell → Bool) (cells : List Cell) (k : Nat) (hk : k < cells.length)
